@@ -1046,6 +1046,8 @@ def normalise_counted_while(trees):
         block[k] = loop
         return True
 
+    dead = []
+
     def rewrite(fn, block):
         for k, w in enumerate(list(block)):
             if not isinstance(w, ast.While) or w.orelse or not w.body:
@@ -1071,9 +1073,11 @@ def normalise_counted_while(trees):
                 continue
             # the start value: the nearest assignment to i in front of the loop, in the same block, a plain expression without i
             start = None
+            init_stmt = None
             for prev in reversed(block[:k]):
                 if isinstance(prev, ast.Assign) and len(prev.targets) == 1 and isinstance(prev.targets[0], ast.Name) and prev.targets[0].id == i:
                     start = prev.value
+                    init_stmt = prev
                     break
                 if stores([prev], i):
                     break
@@ -1094,10 +1098,17 @@ def normalise_counted_while(trees):
                         changed = True
             if changed:
                 continue
-            # i not read after the loop
+            # i not read after the loop: no later occurrence at all, or the next statement of this block that mentions i is a
+            # plain re-initialisation `i = <expression without i>`
             end = getattr(w, 'end_lineno', w.lineno)
-            if any(isinstance(x, ast.Name) and x.id == i and isinstance(x.ctx, ast.Load) and x.lineno > end for x in ast.walk(fn)):
-                continue
+            later = [x for x in ast.walk(fn) if isinstance(x, ast.Name) and x.id == i and x.lineno > end]
+            if later:
+                nxt = next((st for st in block[k + 1:] if any(isinstance(x, ast.Name) and x.id == i for x in ast.walk(st))), None)
+                reinit = (nxt is not None and isinstance(nxt, ast.Assign) and len(nxt.targets) == 1 and isinstance(nxt.targets[0], ast.Name) and nxt.targets[0].id == i
+                          and not any(isinstance(x, ast.Name) and x.id == i for x in ast.walk(nxt.value)))
+                inside_block = {id(x) for st in block[k + 1:] for x in ast.walk(st)}
+                if not reinit or any(id(x) not in inside_block for x in later):
+                    continue
             body = list(w.body[:-1])
             if extra:
                 cond = extra[0] if len(extra) == 1 else ast.BoolOp(op=ast.And(), values=[copy.deepcopy(c) for c in extra])
@@ -1113,16 +1124,34 @@ def normalise_counted_while(trees):
             ast.copy_location(new, w)
             ast.copy_location(loop, w)
             block[k] = new
+            # the initialisation is dead once the for statement binds i itself (nothing reads i in between)
+            between = block[block.index(init_stmt) + 1:k]
+            if not any(isinstance(x, ast.Name) and x.id == i for n_ in between for x in ast.walk(n_)) \
+                    and not any(isinstance(x, ast.Name) and x.id == i for c_ in extra for x in ast.walk(c_)):
+                dead.append((block, init_stmt))
 
     for tree in trees.values():
         if not any(isinstance(n, ast.While) for n in ast.walk(tree)):
             continue
         for fn in [n for n in ast.walk(tree) if isinstance(n, ast.FunctionDef)]:
+            if not any(isinstance(n, ast.While) for n in ast.walk(fn)):
+                continue
+            saved_body = copy.deepcopy(fn.body)
             for n in ast.walk(fn):
                 for fld in ('body', 'orelse', 'finalbody'):
                     blk = getattr(n, fld, None)
                     if isinstance(blk, list) and blk and isinstance(blk[0], ast.stmt):
                         rewrite(fn, blk)
+            if any(isinstance(n, ast.While) for n in ast.walk(fn)):
+                # all or nothing per function: a function in which some loop stays a `while` is left to the older, per-function
+                # treatment as a whole (mixing the two left a half-converted function)
+                fn.body = saved_body
+                del dead[:]
+                continue
+            for blk, st in dead:
+                if st in blk and len(blk) > 1:
+                    blk.remove(st)
+            del dead[:]
         ast.fix_missing_locations(tree)
 
 
